@@ -309,6 +309,11 @@ def parser_semantics(ctx, rule):
         def thunk():
             if how == 'ctor':
                 p = ai.apply(ClassRef(cls), [AList(list(stream), kind)], {}, None)
+            elif how == 'ctor+feed':
+                # the constructor is one more way of feeding: what it leaves open, the next feed() completes
+                p = ai.apply(ClassRef(cls), [AList(list(chunks[0]), kind)], {}, None)
+                for ch in chunks[1:]:
+                    call(p, 'feed', AList(list(ch), kind))
             else:
                 p = ai.apply(ClassRef(cls), [], {}, None)
                 for ch in chunks:
@@ -322,6 +327,7 @@ def parser_semantics(ctx, rule):
     variants = [('at once', [stream], 'feed', 'list'), ('byte by byte', [stream], 'bytes', 'list'), ('constructor', [stream], 'ctor', 'list')]
     for cut in range(1, len(stream)):
         variants.append((f'cut at {cut}', [stream[:cut], stream[cut:]], 'feed', 'list'))
+        variants.append((f'the first {cut} bytes to the constructor, the rest to feed()', [stream[:cut], stream[cut:]], 'ctor+feed', 'list'))
     # "any iterable of integers": a tuple, and an iterator that can be walked only once (a generator, map(), iter(...))
     for kind in ('tuple', 'iterator'):
         variants.append((f'at once, as {kind}', [stream], 'feed', kind))
@@ -376,6 +382,41 @@ def parser_semantics(ctx, rule):
                         f'after feeding {label} through {how_txt}: pending(), get_message(), rest = '
                         f'{outs[0].value if len(outs) == 1 and outs[0].kind == "return" else outs!r}; expected {len(types)} pending: {types}',
                         construct=f'{cls.qname}::tail::{how}')
+    # a feeding call that is refused part way (an item that is not a byte behind a complete message): whatever the parser then
+    # says is pending is what can be retrieved - pending() times get_message() give messages, the next one gives None
+    from ..absint import AbsRaise as _AR
+    for bad, blabel in ((256, '256'), (-1, '-1'), ('x', "'x'")):
+        for how in ('feed', 'bytes'):
+            def thunk_r(bad=bad, how=how):
+                p = ai.apply(ClassRef(cls), [], {}, None)
+                items = [0x93, n1, v1, 0xf8, bad, 0x85]
+                refused = None
+                try:
+                    if how == 'bytes':
+                        for b in items:
+                            call(p, 'feed_byte', b)
+                    else:
+                        call(p, 'feed', AList(list(items), 'list'))
+                except _AR as e:
+                    refused = e.exc
+                n_pending = call(p, 'pending')
+                n_len = call(p, '__len__')
+                got = [call(p, 'get_message') for _ in range(4)]
+                return refused, n_pending, n_len, got
+            outs = ai.explore(thunk_r)
+            ok = len(outs) == 1 and outs[0].kind == 'return'
+            detail = f'{outs}'
+            if ok:
+                refused, n_pending, n_len, got = outs[0].value
+                k = sum(1 for x in got if x is not None)
+                ok = refused in ('ValueError', 'TypeError') and isinstance(n_pending, int) and n_pending == n_len == k and all(x is not None for x in got[:k]) \
+                    and all(x is None for x in got[k:])
+                detail = (f'the call ends with {refused}; pending() = {n_pending}, len() = {n_len}, and four get_message() calls give '
+                          f'{[x.attrs.get("type") if isinstance(x, AObj) else x for x in got]}')
+            how_txt = {'feed': 'feed()', 'bytes': 'feed_byte() per byte'}[how]
+            ctx.require(ok, rule, f'parser-refused[{blabel} behind a note_on and a clock, {how_txt}]', w,
+                        f'{detail}: pending() must be the number of messages that can still be retrieved, also after a refused call',
+                        construct=f'{cls.qname}::pending-after-refusal')
     # retrieval interleaved with feeding WHILE an iteration is under way: a loop over the parser that feeds more bytes, or takes
     # a message with get_message(), from inside its body.  The loop sees what is pending when it asks, not a count fixed at its start.
     probe_src = ("def probe_feed(p, more):\n"
@@ -440,6 +481,19 @@ def parser_semantics(ctx, rule):
         else:
             ok = len(outs) == 1 and outs[0].kind == 'return' and same(outs[0].value, want[0])
         ctx.require(ok, rule, fname, ctx.where(f), f'{fname}(stream) gives {outs}', construct=f'{f.qname}::result')
+        # the same stream behind bytes that belong to no message, given as a list, a tuple and a one-shot iterator: the first
+        # message is still the note_on (an iterator can be walked once - whoever looks at the data first must keep what it saw)
+        for plabel, prefix in (('a stray data byte', [d0]), ('a cut-off note_off', [0x85, n2]), ('an undefined status byte', [0xf5])):
+            for kind in ('list', 'tuple', 'iterator'):
+                outs = ai.explore(lambda: ai.call_function(f, [AList(list(prefix) + list(stream), kind)], {}))
+                if fname == 'parse_all':
+                    v = outs[0].value if len(outs) == 1 and outs[0].kind == 'return' else None
+                    items = v.items if isinstance(v, AList) else v if isinstance(v, list) else None
+                    ok = items is not None and len(items) == len(want) and all(same(a, b) for a, b in zip(items, want))
+                else:
+                    ok = len(outs) == 1 and outs[0].kind == 'return' and same(outs[0].value, want[0])
+                ctx.require(ok, rule, f'{fname}({plabel} in front, as {kind})', ctx.where(f),
+                            f'{fname}() on {plabel} followed by the stream, given as a {kind}, gives {str(outs)[:300]}', construct=f'{f.qname}::prefix')
         # input that holds no complete message: nothing comes out and nothing is raised
         for label, data in (('no bytes', []), ('a stray data byte', [n1]), ('a cut-off note_on', [0x93, n1]), ('an unfinished sysex', [0xf0, d0, d1]),
                             ('an undefined status byte', [0xf4])):
